@@ -341,7 +341,10 @@ def chk_std(ctx, seq):
         if tuple(got) != C.std(list(seq)):
             report("std", [enc_seq(seq)], f"to_standard of a {type(form).__name__} gives {got!r}")
     if all(isinstance(v, str) and len(v) == 1 for v in seq):
-        Perm.to_standard("".join(seq))
+        got = Perm.to_standard("".join(seq))  # a string is a sequence of characters, compared as characters
+        ctx.ev()
+        if tuple(got) != C.std(list(seq)):
+            report("std", [enc_seq(seq)], f"to_standard of the string {''.join(seq)!r} gives {got!r}, characters in order give {C.std(list(seq))}")
 
 
 def chk_validated(ctx, vals):
@@ -570,6 +573,9 @@ def run(ctx, spec):
                 pool = rng.choice([
                     lambda: rng.randint(0, 3), lambda: rng.choice("abca"), lambda: rng.random(), lambda: rng.randint(-5, 5) / 2,
                     lambda: (rng.randint(0, 2), rng.randint(0, 2)), lambda: rng.choice([0, 1, True, False, 1.0]),
+                    # characters: ASCII digits, digits of other scripts (some int() understands, some it does not), letters
+                    lambda: rng.choice("0123456789"), lambda: rng.choice("90\u0660\u0669\u0967\uff11"), lambda: rng.choice("21\u00b2\u00b3\u2461\u2460"),
+                    lambda: rng.choice("9a\u0660 Z\u00e9"),
                 ])
                 chk_std(ctx, [pool() for _ in range(n)])
                 if n >= 3:
